@@ -47,7 +47,7 @@ Definition run (fn : Z) (i : tree) : tree :=
 
 Definition spec (fn : Z) (i o : tree) : bool :=
   match fn with
-  | 1 => if t_int (t_nth 2 i) =? 0 then true else           (* outside the domain of the property: nothing claimed *)
+  | 1 => if (match t_nth 2 i with TI 0 => true | _ => false end) then true else   (* outside the domain of the property: nothing claimed *)
          match o with
          | TL [TI 0; TB _; TI ok] => ok =? 1            (* the independent decoder accepted the bytes *)
          | TL [TI 2] =>                                  (* the writer refused: only where the model says it must *)
@@ -57,7 +57,7 @@ Definition spec (fn : Z) (i o : tree) : bool :=
              end
          | _ => false
          end
-  | 2 => if t_int (t_nth 4 i) =? 0 then true else
+  | 2 => if (match t_nth 4 i with TI 0 => true | _ => false end) then true else
          tree_eqb o (TL [TI 0; TI (zlen (t_bytes (t_nth 1 i))); t_nth 3 i])    (* ok, all bytes consumed, fields as sent *)
   | 3 => (* a valid encoding (parsed completely, also by the model): every proper prefix is not-enough-bytes *)
          let body := t_bytes (t_nth 1 i) in
